@@ -243,6 +243,8 @@ class ST:
         return idx + (slice(None),) * (len(self.shape) - len(idx))
 
     def __vc_getitem__(self, I, idx):
+        if isinstance(idx, ST) and idx.dtype == "long":
+            return _index_by_tensor(I, self, idx)
         idx = self._norm_idx(idx)
         shape, maps = [], []
         for d, k in enumerate(idx):
@@ -257,12 +259,18 @@ class ST:
                     hi = hi if not (isinstance(hi, int) and hi < 0) else n + hi
                 size = hi - lo if not (isinstance(hi, int) and isinstance(lo, int)) else hi - lo
                 size = z3.simplify(size) if is_z3(size) else size
+                if is_z3(lo) or is_z3(hi) or (is_z3(n) and not (isinstance(lo, int) and lo == 0 and hi is n)):
+                    # python / torch clamp slice bounds to the extent; the index-function model does not, so the bounds must lie inside
+                    I.ex.oblige("slice.bounds_within_the_extent", z3.And(to_z3(lo) >= 0, to_z3(lo) <= to_z3(hi), to_z3(hi) <= to_z3(n)))
                 shape.append(size)
                 maps.append(("s", lo))
             else:
                 k2 = to_z3(k) if not isinstance(k, int) else k
                 if isinstance(k2, int) and k2 < 0:
                     k2 = n + k2
+                elif is_z3(k2) and not z3.is_int_value(k2):  # python semantics of a possibly negative symbolic index: counted from the end
+                    neg = z3.simplify(k2 < 0)
+                    k2 = k2 if z3.is_false(neg) else (z3.simplify(k2 + to_z3(n)) if z3.is_true(neg) else z3.If(k2 < 0, k2 + to_z3(n), k2))
                 I.ex.oblige("index.in_bounds", z3.And(to_z3(k2) >= 0, to_z3(k2) < to_z3(n)))
                 maps.append(("i", k2))
 
@@ -756,6 +764,13 @@ def _view(I, t, *shape):
                 if not (isinstance(new[a_], int) and new[a_] == -1) and not dim_eq(new[a_], r.shape[a_]):
                     I.ex.oblige("view.sizes_agree", to_z3(new[a_]) == to_z3(r.shape[a_]))
                 return r
+    if len(t.shape) == 1 and len(new) == 2 and len(nonunit_new) == 2 and not any(isinstance(d, int) and d == -1 for d in new):
+        # a vector split into a matrix (row-major): out[a, b] = t[a * B + b]
+        a_, b_ = to_z3(new[0]), to_z3(new[1])
+        if not dim_eq(a_ * b_, t.shape[0]):
+            I.ex.oblige("view.sizes_agree", a_ * b_ == to_z3(t.shape[0]))
+        e = t.elem
+        return ST(tuple(new), lambda i, j: e(to_z3(i) * b_ + to_z3(j)), t.dtype)
     if len(nonunit_new) != len(nonunit_old):
         raise Unsupported("view that merges or splits symbolic dimensions")
     for (i, d), (i2, d2) in zip(nonunit_new, nonunit_old):
@@ -790,14 +805,21 @@ def _sum(I, t, dim=None, keepdim=False, **k):
     d = dim % len(t.shape)
     out_shape = t.shape[:d] + t.shape[d + 1:]
     n = to_z3(t.shape[d])
-    S = _fresh("partial_sum", *([z3.IntSort()] * (len(out_shape) + 1) + [z3.RealSort()]))
+    integral = t.dtype in ("long", "bool")  # torch sums integer and Boolean tensors into int64
+    S = _fresh("partial_sum", *([z3.IntSort()] * (len(out_shape) + 1) + [z3.IntSort() if integral else z3.RealSort()]))
     te = t.elem
 
     def val(o, j):
         x = te(*(list(o[:d]) + [j] + list(o[d:])))
         if isinstance(x, (ct.NegGuarded, Guarded)):
             raise Unsupported("sum over possibly-infinite entries")
+        if isinstance(x, bool):
+            x = int(x)
         x = to_z3(x)
+        if z3.is_bool(x):
+            x = z3.If(x, 1, 0)
+        if integral:
+            return x
         return z3.ToReal(x) if z3.is_int(x) else x
 
     base = lambda *o: S(*([to_z3(x) for x in o] + [z3.IntVal(0)])) == 0
@@ -806,8 +828,11 @@ def _sum(I, t, dim=None, keepdim=False, **k):
     jv = z3.Int("j_sum")
     I.ex.assume(z3.ForAll(ov, base(*ov)) if ov else base())
     I.ex.assume(z3.ForAll(ov + [jv], step(*(ov + [jv]))))
-    I.ex.ghost.setdefault("sums", []).append({"S": S, "base": base, "step": step, "T": n, "kind": "sum", "val": val})
-    return ST(out_shape, lambda *idx: S(*([to_z3(i) for i in idx] + [n])), "float")
+    rec = {"S": S, "base": base, "step": step, "T": n, "kind": "sum", "val": val, "out_shape": out_shape}
+    I.ex.ghost.setdefault("sums", []).append(rec)
+    for hook in I.ex.ghost.get("sum_hooks", []):  # a sidecar may prove and record a lemma about this sum (e.g. by induction) right here
+        hook(rec)
+    return ST(out_shape, lambda *idx: S(*([to_z3(i) for i in idx] + [n])), "long" if integral else "float")
 
 
 def f_softmax(I, t, dim=-1, **k):
@@ -886,7 +911,16 @@ def _any_dim(I, t, dim, keepdim=False):
     ax2 = z3.ForAll(ov + [jv], z3.Implies(z3.And(rng_o, jv >= 0, jv < n, el(ov, jv)), Bf(*ov)))
     I.ex.assume(ax1)
     I.ex.assume(ax2)
-    I.ex.ghost.setdefault("anys", []).append({"B": Bf, "n": n, "el": el})
+    # instance builders: `witness` is ax1 skolemised (a fresh function naming the position that exists), `intro` is ax2 at one position
+    Wf = _fresh("any_witness", *([z3.IntSort()] * len(out_shape) + [z3.IntSort()]))
+    rng_at = lambda o: z3.And([z3.And(to_z3(i) >= 0, to_z3(i) < to_z3(m)) for i, m in zip(o, out_shape)] or [z3.BoolVal(True)])
+    witness = lambda o: z3.Implies(z3.And(rng_at(o), Bf(*o)), z3.And(Wf(*o) >= 0, Wf(*o) < n, el(list(o), Wf(*o))))
+    intro = lambda o, j: z3.Implies(z3.And(rng_at(o), j >= 0, j < n, el(list(o), j)), Bf(*o))
+    if ov:
+        I.ex.assume(z3.ForAll(ov, witness(ov)))
+    else:
+        I.ex.assume(witness([]))
+    I.ex.ghost.setdefault("anys", []).append({"B": Bf, "n": n, "el": el, "W": Wf, "witness": witness, "intro": intro})
     r = ST(out_shape, lambda *idx: Bf(*[to_z3(i) for i in idx]), "bool")
     return _unsqueeze(I, r, d) if keepdim else r
 
@@ -920,6 +954,11 @@ def _any(I, t, *a, **k):
 def _min(I, t, other=None, keepdim=False, dim=None):
     if isinstance(other, ST):
         return ST.ew(I, sc_min_g, t, other, dtype=t.dtype)
+    if other is None and dim is None:
+        if all(isinstance(x, int) and x == 1 for x in t.shape):  # one element: the minimum is that element
+            e1 = t.elem(*([0] * len(t.shape)))
+            return ST((), lambda: e1, t.dtype)
+        raise Unsupported("min over all elements of a symbolic-shape tensor")
     d = (other if dim is None else dim) % len(t.shape)
     rank = len(t.shape)
     out_rank = rank - 1
@@ -1093,8 +1132,82 @@ def dispatch(name, ct_fn):
     return f
 
 
+
+def _skolem_in_bounds(I, name, index, extent):
+    """obligation `0 <= index[ii] < extent` at an arbitrary position ii of the index tensor: fresh skolem constants
+    (FORALL-introduction); the sidecar's hooks instantiate its quantified preconditions at the new position"""
+    ii = [I.ex.fresh("int", "index_pos") for _ in range(len(index.shape))]
+    rng = z3.And([z3.And(i >= 0, i < to_z3(n)) for i, n in zip(ii, index.shape)] or [z3.BoolVal(True)])
+    kk = to_z3(index.elem(*ii))
+    for hook in I.ex.ghost.get("skolem_hooks", []):
+        for x in hook(ii):
+            I.ex.instance(x)
+    I.ex.oblige(name, z3.Implies(rng, z3.And(kk >= 0, kk < to_z3(extent))))
+
+
+def _index_by_tensor(I, t, index):
+    """t[index] for a rank-1 t and an integer index tensor of any rank: out[i...] = t[index[i...]]; every index in bounds (torch
+    raises otherwise - negative indices are not modelled, they are refused by the obligation)"""
+    if len(t.shape) != 1:
+        raise Unsupported("indexing a tensor of rank > 1 by an index tensor")
+    te, ie = t.elem, index.elem
+    _skolem_in_bounds(I, "index.tensor_index_in_bounds", index, t.shape[0])
+    return ST(index.shape, lambda *idx: te(ie(*idx)), t.dtype)
+
+
+@meth("repeat")
+def _repeat(I, t, *reps):
+    """repeat of a rank-1 tensor: r copies one after the other, out[i] = t[i mod n]"""
+    if len(reps) == 1 and isinstance(reps[0], (tuple, list)):
+        reps = tuple(reps[0])
+    if len(t.shape) != 1 or len(reps) != 1:
+        raise Unsupported("repeat other than of a rank-1 tensor along its dimension")
+    n, e = to_z3(t.shape[0]), t.elem
+    I.ex.oblige("repeat.count_not_negative", to_z3(reps[0]) >= 0)
+    return ST((to_z3(reps[0]) * n,), lambda i: e(to_z3(i) % n), t.dtype)
+
+
+@meth("repeat_interleave")
+def _repeat_interleave(I, t, r, dim=None):
+    """repeat_interleave of a rank-1 tensor by a scalar count: every element r times in a row, out[i] = t[i div r]"""
+    if len(t.shape) != 1 or isinstance(r, ST):
+        raise Unsupported("repeat_interleave other than of a rank-1 tensor by a scalar count")
+    rz, e = to_z3(r), t.elem
+    I.ex.oblige("repeat_interleave.count_not_negative", rz >= 0)
+    return ST((to_z3(t.shape[0]) * rz,), lambda i: e(to_z3(i) / rz), t.dtype)
+
+
+@meth("item")
+def _item(I, t):
+    if not all(isinstance(d, int) and d == 1 for d in t.shape):
+        raise Unsupported("item() of a tensor that is not known to hold one element")
+    return t.elem(*([0] * len(t.shape)))
+
+
+def f_isfinite(I, t):
+    def fin(x):
+        if isinstance(x, ct.NegGuarded):
+            f = x.ninf
+            return z3.Not(f) if is_z3(f) else (not f)
+        if isinstance(x, Guarded):
+            p, _ = Guarded.split(x)
+            return z3.Not(p) if is_z3(p) else (not p)
+        if isinstance(x, ct.NaNValue) or ct.is_inf(x):
+            return False
+        return True
+    return ST.ew(I, fin, t, dtype="bool")
+
+
+def f_zeros_like(I, t, **k):
+    dt = ct.dtype_tag(k.get("dtype"), t.dtype)
+    return ST.const(t.shape, False if dt == "bool" else 0, dt)
+
+
+def f_as_tensor(I, t, *a, **k):
+    return _to(I, t, *a, **{kk: v for kk, v in k.items() if kk == "dtype"})
+
 METH["softmax"] = f_softmax
-FUNCS.update({"torch.nn.functional.one_hot": f_one_hot, "torch._C._nn.one_hot": f_one_hot, "torch.stack": f_stack, "torch.cat": f_cat, "torch.ones": f_ones, "torch.zeros": f_zeros, "torch.nn.functional.softmax": f_softmax, "torch.softmax": f_softmax, "torch.pow": f_pow, "torch.matmul": lambda I, a, b: _matmul(I, a, b), "torch.empty": f_empty, "torch.arange": f_arange, "torch.full": f_full, "torch.full_like": f_full_like, "torch.where": f_where, "torch.min": f_min})
+FUNCS.update({"torch.nn.functional.one_hot": f_one_hot, "torch._C._nn.one_hot": f_one_hot, "torch.stack": f_stack, "torch.cat": f_cat, "torch.ones": f_ones, "torch.zeros": f_zeros, "torch.nn.functional.softmax": f_softmax, "torch.softmax": f_softmax, "torch.pow": f_pow, "torch.matmul": lambda I, a, b: _matmul(I, a, b), "torch.empty": f_empty, "torch.arange": f_arange, "torch.full": f_full, "torch.full_like": f_full_like, "torch.where": f_where, "torch.min": f_min, "torch.isfinite": f_isfinite, "torch.zeros_like": f_zeros_like, "torch.as_tensor": f_as_tensor})
 
 
 def stubs():
